@@ -105,6 +105,24 @@ def transform_fill_grid(chk):
         CC.check_font_pictures(chk, font, cfg, srcs, glyphs, 0.1, f"grid [{label}] [{flavour}]", replay, deltas=CC.layer_deltas(glyphs, cfg, 0.1))
 
 
+def reuse_fill_grid(chk, pid="C01"):
+    """reuse transform kinds x fill kinds, compiled to COLRv1 and compared with the source."""
+    for k, (label, glyphs) in enumerate(S.reuse_fill_grid()):
+        flavour = CC.FLAVOURS[k % len(CC.FLAVOURS)]
+        cfgkw = dict(color_format=flavour, keep_glyph_names=True, reuse_tolerance=0.1, clip_to_viewbox=False, **S.LATTICE_CONFIG)
+        cfg = build.base_config(**cfgkw)
+        srcs = CC.sources_from(glyphs)
+        replay = {"kind": "reuse-x-fill", "label": label, "config": {a: str(b) for a, b in cfgkw.items()}, "svgs": [x.svg_text for x in srcs]}
+        chk.case(key=("reuse-grid", label), nontrivial=True)
+        chk.traces_validated += 1
+        try:
+            _, font = build.build(cfg, srcs, already_pico=True)
+        except Exception as e:
+            chk.violation(f"valid sources fail to compile [{label}] ({flavour}): {type(e).__name__}: {str(e)[:200]}", replay)
+            continue
+        CC.check_font_pictures(chk, font, cfg, srcs, glyphs, 0.1, f"reuse grid [{label}] [{flavour}]", replay, deltas=CC.layer_deltas(glyphs, cfg, 0.1))
+
+
 def coincidence_scenarios(chk, n, pid="C01", only=None):
     """Integer-lattice axis-aligned copies (scale exactly 1 on one axis, integer scale centres) and thin-bar overflow
     fallbacks: coincidences random floats never hit."""
@@ -209,6 +227,7 @@ def run(chk):
     random_scenarios(chk, 60 if quick else 2500)
     coincidence_scenarios(chk, 60 if quick else 2000)
     transform_fill_grid(chk)
+    reuse_fill_grid(chk)
     corpus(chk)
     radial_overflow_finding(chk)
     compile_trace.run(chk, 30 if quick else 400)
